@@ -445,12 +445,13 @@ def run(ctx):
         "A walk is given an item budget of 4 x (predicted length) + 50 (random trees: %d, checked by the Judge to exceed the "
         "prediction) and 20 s wall clock (30 s when re-run alone); exceeding either is an observation that contradicts the "
         "finite prediction, not an infrastructure error." % RANDOM_CAP,
-        "Unreadable directories, special files, overlapping roots, roots spelled through `..` (seeded change C19-11 is missed for that reason), non-UTF-8 names and Windows/MSYS separators are not "
+        "Unreadable directories, special files, overlapping roots, non-UTF-8 names and Windows/MSYS separators are not "
         "modelled; the process runs as root, so permission errors cannot be provoked.",
         "The walker is triggered in the real binary by giving it a pty slave as stdin (util.IsTty) in filter mode "
         "(-f '' --print0); the interactive path shares ReadSource/readFiles.",
         "CODE-DERIVED corners kept as regression oracles: a root other than '.' is itself an entry (listed with `dir`, "
         "pruned when hidden/skipped); a skip pattern with a leading separator is suffix-only; trailing separator / './' "
-        "spellings of a root.",
+        "spellings of a root; a root spelled CHILD/.. (the `..` component is printed as it is and is not a hidden entry; "
+        "only through a real directory, never through a link).",
         "Exhaustive up to the stated tree size only; 5-entry trees over the full name set are sampled (TLC -simulate)."]
     return "model_checking"
